@@ -214,6 +214,256 @@ func paramSpill(a *ssa.Alloc) *ssa.Parameter {
 	return p
 }
 
+// structSpill recognises a struct-typed local that only holds a value computed
+// elsewhere ("sf := t.Field(i); use(sf.Name, sf.Tag)", or a struct result copied
+// into a variable): exactly one whole-value store, which dominates every read;
+// otherwise only loads of the whole value or of (nested) fields; no field is
+// written separately and the address does not escape.  go/ssa keeps such a
+// local in memory (it is not lifted to a register because fields are selected
+// by address); for provenance it reads as the stored value itself.
+func structSpill(a *ssa.Alloc) ssa.Value {
+	if st := structSpillStore(a); st != nil {
+		return st.Val
+	}
+	return nil
+}
+
+func structSpillStore(a *ssa.Alloc) *ssa.Store {
+	if _, ok := a.Type().(*types.Pointer).Elem().Underlying().(*types.Struct); !ok {
+		return nil
+	}
+	var st *ssa.Store
+	var loads []ssa.Instruction
+	ok := true
+	var readOnly func(addr ssa.Value)
+	readOnly = func(addr ssa.Value) {
+		refs := addr.Referrers()
+		if refs == nil {
+			ok = false
+			return
+		}
+		for _, ref := range *refs {
+			switch x := ref.(type) {
+			case *ssa.DebugRef:
+			case *ssa.UnOp:
+				if x.Op != token.MUL {
+					ok = false
+				}
+				loads = append(loads, x)
+			case *ssa.FieldAddr:
+				readOnly(x)
+			case *ssa.Store:
+				if addr != ssa.Value(a) || x.Addr != addr || x.Val == addr || st != nil {
+					ok = false
+				}
+				st = x
+			default:
+				ok = false
+			}
+		}
+	}
+	readOnly(a)
+	if !ok || st == nil {
+		return nil
+	}
+	// the held value must not itself be a read of memory that may change afterwards
+	// (a copy of another variable is a snapshot, not an alias)
+	if u, isLoad := st.Val.(*ssa.UnOp); isLoad && u.Op == token.MUL {
+		if src, isAlloc := u.X.(*ssa.Alloc); !isAlloc || !writtenOnlyBefore(src, st) {
+			return nil
+		}
+	}
+	for _, ld := range loads {
+		if ld.Block() == st.Block() {
+			if instrIdx(st) > instrIdx(ld) {
+				return nil
+			}
+		} else if !st.Block().Dominates(ld.Block()) {
+			return nil
+		}
+	}
+	return st
+}
+
+// fieldChain peels FieldAddr selections down to a local: (alloc, ".f.g").
+func fieldChain(addr ssa.Value) (*ssa.Alloc, string) {
+	path := ""
+	for i := 0; i < 6; i++ {
+		switch x := addr.(type) {
+		case *ssa.Alloc:
+			if _, ok := x.Type().(*types.Pointer).Elem().Underlying().(*types.Struct); ok {
+				return x, path
+			}
+			return nil, ""
+		case *ssa.FieldAddr:
+			st := x.X.Type().Underlying().(*types.Pointer).Elem().Underlying().(*types.Struct)
+			path = "." + st.Field(x.Field).Name() + path
+			addr = x.X
+		default:
+			return nil, ""
+		}
+	}
+	return nil, ""
+}
+
+// reachingCopy: for a struct local that is only assigned as a whole (several
+// times) and otherwise only read, the one assignment whose value a given read
+// sees: it dominates the read, and every other assignment either is overwritten
+// by it (dominates it) or cannot reach the read without passing through it.
+func reachingCopy(a *ssa.Alloc, read ssa.Instruction) *ssa.Store {
+	var stores []*ssa.Store
+	ok := true
+	var visit func(addr ssa.Value)
+	visit = func(addr ssa.Value) {
+		refs := addr.Referrers()
+		if refs == nil {
+			ok = false
+			return
+		}
+		for _, ref := range *refs {
+			switch x := ref.(type) {
+			case *ssa.DebugRef:
+			case *ssa.UnOp:
+				if x.Op != token.MUL {
+					ok = false
+				}
+			case *ssa.FieldAddr:
+				visit(x)
+			case *ssa.Store:
+				if addr != ssa.Value(a) || x.Addr != addr || x.Val == addr {
+					ok = false
+				}
+				stores = append(stores, x)
+			default:
+				ok = false
+			}
+		}
+	}
+	visit(a)
+	if !ok || len(stores) < 2 {
+		return nil
+	}
+	before := func(s ssa.Instruction, t ssa.Instruction) bool { // s executes before t on every path to t
+		if s.Block() == t.Block() {
+			return instrIdx(s) < instrIdx(t)
+		}
+		return s.Block().Dominates(t.Block())
+	}
+	var best *ssa.Store
+	for _, s := range stores {
+		if before(s, read) && (best == nil || before(best, s)) {
+			best = s
+		}
+	}
+	if best == nil {
+		return nil
+	}
+	for _, s := range stores {
+		if s == best || before(s, best) {
+			continue
+		}
+		// s is not overwritten by best on every path: it must not reach the read
+		if s.Block() == best.Block() || s.Block() == read.Block() {
+			return nil
+		}
+		seen := map[*ssa.BasicBlock]bool{best.Block(): true}
+		work := append([]*ssa.BasicBlock{}, s.Block().Succs...)
+		for len(work) > 0 {
+			b := work[len(work)-1]
+			work = work[:len(work)-1]
+			if seen[b] {
+				continue
+			}
+			seen[b] = true
+			if b == read.Block() {
+				return nil
+			}
+			work = append(work, b.Succs...)
+		}
+	}
+	return best
+}
+
+// chaseCopies follows a struct local back through whole-value copies to the
+// local (or the non-memory value) whose contents a read sees.
+func chaseCopies(a *ssa.Alloc, read ssa.Instruction) (*ssa.Alloc, ssa.Value) {
+	for i := 0; i < 4; i++ {
+		st := structSpillStore(a)
+		if st == nil {
+			st = reachingCopy(a, read)
+		}
+		if st == nil {
+			return a, nil
+		}
+		u, isLoad := st.Val.(*ssa.UnOp)
+		if !isLoad || u.Op != token.MUL {
+			return nil, st.Val
+		}
+		src, ok := u.X.(*ssa.Alloc)
+		if !ok || !writtenOnlyBefore(src, st) {
+			return a, nil
+		}
+		a, read = src, st
+	}
+	return a, nil
+}
+
+func instrIdx(in ssa.Instruction) int {
+	for i, x := range in.Block().Instrs {
+		if x == in {
+			return i
+		}
+	}
+	return -1
+}
+
+// writtenOnlyBefore: every write into src (whole or field stores, calls that
+// receive its address) is in a block that dominates the copy, or earlier in the
+// copy's block — after the copy the source is only read.
+func writtenOnlyBefore(src *ssa.Alloc, cp *ssa.Store) bool {
+	okAll := true
+	var visit func(addr ssa.Value)
+	visit = func(addr ssa.Value) {
+		refs := addr.Referrers()
+		if refs == nil {
+			okAll = false
+			return
+		}
+		for _, ref := range *refs {
+			switch x := ref.(type) {
+			case *ssa.DebugRef:
+			case *ssa.UnOp:
+				if x.Op != token.MUL {
+					okAll = false
+				}
+			case *ssa.FieldAddr:
+				visit(x)
+			case *ssa.IndexAddr:
+				visit(x)
+			default:
+				in, isIn := ref.(ssa.Instruction)
+				if !isIn {
+					okAll = false
+					continue
+				}
+				// a store into it, or its address handed to a call / stored away
+				if in.Block() == cp.Block() {
+					if instrIdx(in) > instrIdx(cp) {
+						okAll = false
+					}
+				} else if !in.Block().Dominates(cp.Block()) {
+					okAll = false
+				}
+				if s, isStore := in.(*ssa.Store); isStore && s.Val == addr {
+					okAll = false // the address itself escapes into memory
+				}
+			}
+		}
+	}
+	visit(src)
+	return okAll
+}
+
 // arraySpill recognises "h := f(); use(h[:])": an array-typed local that is
 // stored once as a whole and otherwise only sliced or loaded.
 func arraySpill(a *ssa.Alloc) ssa.Value {
@@ -327,13 +577,25 @@ func (d *Describer) desc1(v ssa.Value, depth int) string {
 		if sv := arraySpill(v); sv != nil {
 			return "&(" + r(sv) + ")"
 		}
+		if st := structSpillStore(v); st != nil {
+			if u, ok := st.Val.(*ssa.UnOp); ok && u.Op == token.MUL {
+				if src, ok := u.X.(*ssa.Alloc); ok && writtenOnlyBefore(src, st) {
+					return r(src) // a copy of another local reads as that local
+				}
+			}
+			return "&(" + r(st.Val) + ")"
+		}
 		return d.allocName(v)
 	case *ssa.FieldAddr:
 		st := v.X.Type().Underlying().(*types.Pointer).Elem().Underlying().(*types.Struct)
 		return "&(" + selBase(r(v.X)) + "." + st.Field(v.Field).Name() + ")"
 	case *ssa.Field:
 		st := v.X.Type().Underlying().(*types.Struct)
-		return selBase(r(v.X)) + "." + st.Field(v.Field).Name()
+		base := selBase(r(v.X))
+		if strings.HasPrefix(base, "*new:") && !strings.ContainsAny(base[1:], "*&( ") {
+			base = base[1:] // (*local).f is local.f
+		}
+		return base + "." + st.Field(v.Field).Name()
 	case *ssa.IndexAddr:
 		return "&(" + selBase(r(v.X)) + "[" + r(v.Index) + "])"
 	case *ssa.Index:
@@ -358,6 +620,26 @@ func (d *Describer) desc1(v ssa.Value, depth int) string {
 			if a, ok := v.X.(*ssa.Alloc); ok {
 				if sv := uniqueStore(a); sv != nil {
 					return r(sv)
+				}
+			}
+			// a read of a struct local that only holds copies: the value (or the other
+			// local) whose copy reaches this read (flow-sensitive; see chaseCopies)
+			if root, fields := fieldChain(v.X); root != nil {
+				if fa, fv := chaseCopies(root, v); fa != root || fv != nil {
+					switch {
+					case fa != nil && fields == "":
+						return "*" + d.allocName(fa)
+					case fa != nil:
+						return d.allocName(fa) + fields
+					case fields == "":
+						return r(fv)
+					default:
+						base := selBase(r(fv))
+						if strings.HasPrefix(base, "*new:") && !strings.ContainsAny(base[1:], "*&( ") {
+							base = base[1:] // (*local).f is local.f
+						}
+						return base + fields
+					}
 				}
 			}
 			return deref(r(v.X))
